@@ -264,5 +264,18 @@ func registerLib(e *Engine) {
 		s.dead = true
 		return nil
 	}
+	L["net/url.Parse"] = func(s *State, site ssa.Instruction, args []Val) []Val {
+		s.used("net/url.Parse: returns exactly one of (non-nil URL, nil) or (nil, non-nil error); no other effect")
+		sig := site.(ssa.CallInstruction).Common().Signature()
+		u := s.freshVal(sig.Results().At(0).Type(), "url")
+		errv, eid := s.newErr("urlparse")
+		for _, t := range s.sentinelTerms() {
+			s.assume(not(app("errIs", eid, t)))
+		}
+		ok := s.c.freshConst("urlok", sBool)
+		s.assume(eq(ok, not(eq(u.S, "0"))))
+		e := Val{T: errorT, S: s.define("urlerr", sIface, ite(ok, "nilI", errv.S))}
+		return []Val{u, e}
+	}
 	registerStrings(e)
 }
